@@ -27,10 +27,11 @@ type nmScenario struct {
 	Accept   bool   // the responder's Accept arrives
 	Disabled bool   // monitoring not configured
 	AcceptTO bool   // short accept timeout configured
+	Prompt   bool   // the Accept is handled before the opening call returns
 }
 
 func (s nmScenario) String() string {
-	return fmt.Sprintf("pull=%v max=%d trigger=%s fail=%s accept=%v disabled=%v accept-timeout=%v", s.Pull, s.Max, s.Trigger, s.Fail, s.Accept, s.Disabled, s.AcceptTO)
+	return fmt.Sprintf("pull=%v max=%d trigger=%s fail=%s accept=%v disabled=%v accept-timeout=%v prompt-accept=%v", s.Pull, s.Max, s.Trigger, s.Fail, s.Accept, s.Disabled, s.AcceptTO, s.Prompt)
 }
 
 func runNodeMonitor(dir string, seed uint64, tier string) {
@@ -47,6 +48,7 @@ func runNodeMonitor(dir string, seed uint64, tier string) {
 		scs = append(scs, nmScenario{Pull: pull, Max: 2, Trigger: "senderr", Fail: "none", Accept: true, Disabled: true})
 		scs = append(scs, nmScenario{Pull: pull, Max: 2, Trigger: "", Accept: false, AcceptTO: true})
 		scs = append(scs, nmScenario{Pull: pull, Max: 2, Trigger: "", Accept: true, AcceptTO: true})
+		scs = append(scs, nmScenario{Pull: pull, Max: 2, Trigger: "", Accept: true, AcceptTO: true, Prompt: true})
 	}
 	id := 0
 	for _, sc := range scs {
@@ -85,6 +87,7 @@ func runNodeMonitorCase(res *suiteResult, id int, label string, sc nmScenario) {
 	defer func() { _ = r.mgr.Stop(context.Background()) }()
 	ctx := context.Background()
 	r.register("T1")
+	r.promptAccept = sc.Prompt
 	d := 0
 	if sc.Pull {
 		d = 1
@@ -136,7 +139,7 @@ func runNodeMonitorCase(res *suiteResult, id int, label string, sc nmScenario) {
 		}
 		return cond()
 	}
-	if sc.Accept {
+	if sc.Accept && !sc.Prompt {
 		r.exec(sMResp(2, respOf(mtNew, k.Tid, true, false)), 1)
 	}
 	if sc.AcceptTO {
